@@ -91,8 +91,8 @@ func (f *Face) getPointsForGlyph(gid tables.GlyphID, currentDepth int, allPoints
 			f.getPointsForGlyph(item.GlyphIndex, currentDepth+1, &compPoints)
 
 			LC := len(compPoints)
-			if LC < phantomCount { // in case of max depth reached
-				return
+			if LC < phantomCount { // max depth reached or invalid component glyph:
+				continue // skip it, so that the phantom points are always added
 			}
 
 			/* Copy phantom points from component if USE_MY_METRICS flag set */
